@@ -227,6 +227,54 @@ def _proxy_task(t):
     return {"evals": 1, "nontriv": 1 if line_k != "none" or late else 0, "viols": viols, "key": repr(t)}
 
 
+FAI_PG = {"declared4": "203.0.113.7", "declared6": "2001:db8::7", "other-peer": "10.9.9.9", "default": None, "star": "*",
+          "declared+other": "203.0.113.7,10.9.9.9"}
+
+
+def _pg_task(t):
+    """A PROXY line AND proxy-asserting headers on one keep-alive connection: the PROXY line changes the client
+    address the application sees, not who the connection's peer is - the header gate keeps judging the peer."""
+    wi, peer_k, fai, line_k = t
+    kind, kw = PROXY_WORKERS[wi]
+    peer = PEERS[peer_k]
+    kw = dict(kw)
+    kw.update({"proxy_protocol": True, "proxy_allow_ips": "*"})
+    if FAI_PG[fai] is not None:
+        kw["forwarded_allow_ips"] = FAI_PG[fai]
+    hs = (("X-Forwarded-Proto", "https"), ("SCRIPT_NAME", "/s"))
+    app = App()
+    b = bench.Bench(kind, kw, app)
+    try:
+        data = PROXY_LINES[line_k] + request(hs, b"/s/1") + request(hs, b"/s/2") + request(hs, b"/s/3", b"close")
+        o = b.connection(data, peer=peer)
+    finally:
+        b.close()
+    allow = split_list(FAI_PG[fai], DEFAULT_FAI)
+    trusted = "*" in allow or not isinstance(peer, tuple) or peer[0] in allow
+    want_scheme, want_script = ("https", "/s") if trusted else ("http", "")
+    v = None
+    if o.exc:
+        v = ("exception-escaped-handle", o.exc)
+    elif not app.envs:
+        v = ("request-refused-unexpectedly", "wire %r" % o.wire[:80])
+    else:
+        for i, env in enumerate(app.envs):
+            if env.get("wsgi.url_scheme") != want_scheme or env.get("SCRIPT_NAME") != want_script:
+                v = ("gate-judges-declared-address-not-peer", "request %d: peer %r is %s forwarded_allow_ips=%r, PROXY line declares %s; "
+                     "wsgi.url_scheme=%r SCRIPT_NAME=%r expected %r %r" % (
+                         i + 1, peer, "in" if trusted else "NOT in", FAI_PG[fai], DECLARED[line_k][0], env.get("wsgi.url_scheme"),
+                         env.get("SCRIPT_NAME"), want_scheme, want_script))
+                break
+            if env.get("REMOTE_ADDR") != DECLARED[line_k][0]:
+                v = ("proxy-address-on-request-%d" % (i + 1), "REMOTE_ADDR=%r expected %r" % (env.get("REMOTE_ADDR"), DECLARED[line_k][0]))
+                break
+    viols = []
+    if v:
+        viols.append(violation("proxy+gate:" + v[0] + ":" + kind, "worker=%s %r peer=%s forwarded_allow_ips=%s line=%s: %s" % (
+            kind, PROXY_WORKERS[wi][1], peer_k, fai, line_k, v[1]), {"kind": "pg", "t": list(t)}))
+    return {"evals": 1, "nontriv": 1, "viols": viols, "key": repr(("PG",) + tuple(t))}
+
+
 def merges(a, b):
     """all interleavings of two event sequences preserving each one's order"""
     if not a:
@@ -286,6 +334,8 @@ def _interleave_task(t):
 def _task(t):
     if t[0] == "I":
         return _interleave_task(t[1:])
+    if t[0] == "PG":
+        return _pg_task(t[1:])
     return _proxy_task(t[1:]) if t[0] == "P" else _gate_task(t[1:])
 
 
@@ -310,6 +360,11 @@ def run(ctx):
                     for line_k in PROXY_LINES:
                         for late in (False, True):
                             tasks.append(("P", wi, peer_k, pp, pai, line_k, late))
+    for wi in range(len(PROXY_WORKERS)):
+        for peer_k in PEERS:
+            for fai in FAI_PG:
+                for line_k in DECLARED:
+                    tasks.append(("PG", wi, peer_k, fai, line_k))
     for wi in (1, 2):
         for bline in ("tcp6", "none"):
             tasks.append(("I", wi, bline))
@@ -326,6 +381,7 @@ def run(ctx):
         "samples": [{"peer": "v4-other", "forwarded_allow_ips": "default", "headers": [["X-Forwarded-Proto", "https"], ["SCRIPT_NAME", "/s"]]},
                     {"peer": "v4-local", "proxy_protocol": True, "line": "tcp4", "requests": 3}],
         "exhaustive": True,
+        "proxy_plus_gate_cells": sum(1 for t in tasks if t[0] == "PG"),
         "gate_cells": sum(1 for t in tasks if t[0] == "G"), "proxy_cells": sum(1 for t in tasks if t[0] == "P"),
         "interleaved_two_connection_schedules": sum(r["evals"] for r in res if r["key"].startswith("('I'")),
     }
@@ -338,6 +394,9 @@ def run(ctx):
 def replay(case):
     if case["kind"] == "interleave":
         r = _interleave_task(tuple(case["t"]))
+        return r["viols"][0] if r["viols"] else None
+    if case["kind"] == "pg":
+        r = _pg_task(tuple(case["t"]))
         return r["viols"][0] if r["viols"] else None
     if case["kind"] == "proxy":
         r = _proxy_task(tuple(case["t"]))
